@@ -295,6 +295,54 @@ def run(ctx):
                    f'numbered consecutively in list order', file=f, line=n.lineno)
     ctx.setcount('add_sites', nadd)
     ctx.floor('add_sites', 20)
+    # (7) steps remembered for later reference by top-level steps are never of a kind that can sit inside a map-reduce partition -------------------
+    part_kinds = set()
+    for f, fn in all_fns:
+        if fn.name == 'add_plan_step':
+            for n in ast.walk(fn):
+                if isinstance(n, ast.Call) and dotted(n.func) == 'isinstance' and len(n.args) == 2:
+                    ts = n.args[1].elts if isinstance(n.args[1], ast.Tuple) else [n.args[1]]
+                    part_kinds |= {(dotted(t) or '').split('.')[-1] for t in ts} & step_classes
+    ctx.need(part_kinds, 'add_plan_step: the kinds of steps that go into a partition were not found')
+    ret_kinds = {}          # function -> step classes it can return
+
+    def kinds_of_expr(e, fn):
+        if isinstance(e, ast.Call):
+            last = (dotted(e.func) or (e.func.attr if isinstance(e.func, ast.Attribute) else '')).split('.')[-1]
+            if last in step_classes:
+                return {last}
+            if last in ret_kinds:
+                return set(ret_kinds[last])
+            if last in ADDERS and e.args:
+                return kinds_of_expr(e.args[0], fn)
+            return {'?'}
+        if isinstance(e, ast.Name):
+            out = set()
+            for n in walk_no_nested(fn):
+                if isinstance(n, ast.Assign) and any(isinstance(t, ast.Name) and t.id == e.id for t in n.targets):
+                    out |= kinds_of_expr(n.value, fn)
+            return out or {'?'}
+        return {'?'}
+    for _ in range(3):
+        for f, fn in all_fns:
+            ks = set()
+            for r in [n for n in walk_no_nested(fn) if isinstance(n, ast.Return) and n.value is not None]:
+                ks |= kinds_of_expr(r.value, fn)
+            if ks and '?' not in ks:
+                ret_kinds[fn.name] = ks
+    nrem = 0
+    for f, fn in all_fns:
+        for n in walk_no_nested(fn):
+            if isinstance(n, ast.Assign) and isinstance(n.targets[0], ast.Subscript) and norm(n.targets[0].value).endswith('tables_fetch_step'):
+                nrem += 1
+                ks = kinds_of_expr(n.value, fn)
+                bad = ks & part_kinds
+                ctx.ob('C09.remembered-step-is-top-level', f'{fn_label(n)}:{norm(n.value)[:40]}', not bad and '?' not in ks,
+                       f'{fn_label(n)} remembers a step of kind {sorted(ks)} as the fetch of a table; later top-level steps (the DISTINCT sub-select of the semi-join '
+                       f'filter) read its result, but a {sorted(bad) or "step of unknown kind"} can be a sub-step of a map-reduce partition, whose result is not a '
+                       f'step of the plan', file=f, line=n.lineno, witness='t JOIN model JOIN t2 ON t2.col = model.col USING partition_size=10')
+    ctx.setcount('remembered_steps', nrem)
+    ctx.floor('remembered_steps', 1)
 
 
 def check_partition(ctx, model):
